@@ -96,6 +96,18 @@ if [ "$FLAV" = fuzz ]; then
       fuzz_dispatch)
         $CXX $FCOMMON $OPT -fsanitize=fuzzer,address,undefined -fno-sanitize-recover=undefined -I"$HERE/mock" -I"$REPO/include" -I"$HERE/runner" \
            "$t" "$REPO/src/mpi_dispatcher/mpi_dispatcher.cpp" -o "$OUT/$n" >>"$LOG" 2>&1 || ok=0 ;;
+      fuzz_workflow)
+        # whole library + interpreter, clang, ASan+UBSan, -DNDEBUG (pomerol's debug assertions are not part of the property)
+        mkdir -p "$OUT/wobj"
+        export FCOMMON OPT INC OUT REPO LOG CXX
+        wf_one() { s="$1"; o="$OUT/wobj/$(echo "$s" | tr '/' '_' | sed 's/\.cpp$/.o/')"
+          $CXX $FCOMMON $OPT -DNDEBUG -fopenmp=libgomp -fsanitize=fuzzer-no-link,address,undefined -fno-sanitize-recover=undefined $INC -c "$REPO/src/$s" -o "$o" >>"$LOG.w.$(basename "$o")" 2>&1 || { cat "$LOG.w.$(basename "$o")" >> "$LOG"; exit 1; }; rm -f "$LOG.w.$(basename "$o")"; }
+        export -f wf_one
+        if (cd "$REPO/src" && ls pomerol/*.cpp mpi_dispatcher/*.cpp) | xargs -P "$J" -I{} bash -c 'wf_one {}' ; then
+          $CXX $FCOMMON $OPT -DNDEBUG -fopenmp=libgomp -fsanitize=fuzzer,address,undefined -fno-sanitize-recover=undefined $INC -I"$HERE/runner" \
+             "$t" "$OUT"/wobj/*.o -lboost_mpi -lboost_serialization $MPILIB -o "$OUT/$n" >>"$LOG" 2>&1 || ok=0
+        else ok=0; fi
+        rm -rf "$OUT/wobj" ;;
       fuzz_algebra)
         $CXX $FCOMMON $OPT -fsanitize=fuzzer,address,undefined -fno-sanitize-recover=undefined $INC \
            "$t" "$REPO/src/pomerol/Operator.cpp" "$REPO/src/pomerol/OperatorPresets.cpp" $MPILIB -lboost_mpi -lboost_serialization -o "$OUT/$n" >>"$LOG" 2>&1 || ok=0 ;;
